@@ -52,7 +52,17 @@ def deductive(rep: Report, prop: str, funcs: list[str], contracts_mod: str, incl
             if not relevant:
                 continue
             n_rel += 1
-            if ob.verdict == "failed" and ob.model and len(rep.replays) < 12:
+            if ob.verdict == "candidate":
+                from . import replay as _rp
+
+                info = _rp.replay_obligation(ob, contracts_mod)
+                if info.get("replayed"):
+                    ob.verdict = "failed"
+                    rep.replays[f"{prop}/{ob.oid}"] = info
+                else:
+                    ob.verdict = "undecided"
+                    ob.solver += " candidate counterexample not confirmed on the real code"
+            elif ob.verdict == "failed" and ob.model and len(rep.replays) < 12:
                 from . import replay as _rp
 
                 info = _rp.replay_obligation(ob, contracts_mod)
